@@ -456,7 +456,7 @@ func getOffer(header []byte, isAccepted func(spec, offer string, specParams head
 					delete(params, k)
 				}
 				fasthttp.VisitHeaderParams(accept[i:], func(key, value []byte) bool {
-					if len(key) == 1 && key[0] == 'q' {
+					if len(key) == 1 && (key[0] == 'q' || key[0] == 'Q') { // parameter names are case-insensitive
 						if q, err := fasthttp.ParseUfloat(value); err == nil {
 							quality = q
 						}
